@@ -4,6 +4,8 @@
      "sets ok" | "sets DIFF ids"                     model of root fix-up/propagate_nodeset/fixup_sets/remove_unused_sets
                                                      applied to the phase-1 raw tree vs the phase-2 raw tree
      "totals ok" | "totals DIFF ids"                 model of propagate_total_memory on the phase-5 tree vs the final dump
+     "inserts ok n=<calls>" | "inserts DIFF call=<k> ..."  model of hwloc___insert_object_by_cpuset (Topo/Insert.v) on the tree right
+                                                     before each insertion vs the tree right after it (printed once per load, before "wf")
      "removal ok" | "removal DIFF"                   model of hwloc_filter_bridges + remove_empty on the phase-3 tree vs the phase-4 tree
    other lines are echoed *)
 let show ls = Stdlib.String.concat "|" (Stdlib.List.map (fun l -> Stdlib.String.concat "," (Stdlib.List.map (fun i -> string_of_int (int_of_n i)) l)) ls)
@@ -11,7 +13,8 @@ let ids l = Stdlib.String.concat "," (Stdlib.List.map (fun i -> string_of_int (i
 let phase_of head =
   let h = kv_tbl (split_on ' ' head) in
   match Stdlib.Hashtbl.find_opt h "phase" with Some p -> int_of_string p | None -> 0
-let p1 = ref None and p5 = ref None and p3 = ref None
+let p1 = ref None and p5 = ref None and p3 = ref None and p10 = ref None
+let ins_calls = ref 0 and ins_bad = ref []
 let contains s sub = let n = Stdlib.String.length s and m = Stdlib.String.length sub in let rec go i = i + m <= n && (Stdlib.String.sub s i m = sub || go (i + 1)) in go 0
 let () =
   read_blocks stdin
@@ -31,8 +34,27 @@ let () =
        | 4 -> (match !p3 with
                | Some (d3, nv) -> print_endline (if removal_agrees d3 p.pd nv then "removal ok" else "removal DIFF")
                | None -> ()); p3 := None
+       | 10 -> p10 := Some p
+       | 11 -> (match !p10 with
+                | Some b ->
+                    let h = kv_tbl (split_on ' ' b.raw_head) and h2 = kv_tbl (split_on ' ' p.raw_head) in
+                    let ins = int_of_string (Stdlib.Hashtbl.find h "ins") and root = int_of_string (Stdlib.Hashtbl.find h "insroot") in
+                    let dm_of l = contains l "gdontmerge:1" in
+                    let dms = ref [] in
+                    Stdlib.Array.iteri (fun i l -> if dm_of l && i <> ins then (match (Stdlib.List.nth b.pd.t_objs i).o_gp with Some g -> dms := g :: !dms | None -> ())) b.raw_objs;
+                    let dm_new = dm_of b.raw_objs.(ins) in
+                    let res = Stdlib.Hashtbl.find h2 "res" in
+                    incr ins_calls;
+                    if not (insert_tie b.pd p.pd (n_of_int ins) (n_of_int root) !dms dm_new (Stdlib.Hashtbl.find h2 "same" = "1") (res = "-"))
+                    then ins_bad := (!ins_calls, b.raw_objs.(ins)) :: !ins_bad
+                | None -> ()); p10 := None
        | 5 -> p5 := Some p.pd
        | 0 ->
+         (if !ins_calls > 0 then (match !ins_bad with
+            | [] -> print_endline ("inserts ok n=" ^ string_of_int !ins_calls)
+            | l -> let (k, raw) = Stdlib.List.hd (Stdlib.List.rev l) in
+                   print_endline ("inserts DIFF call=" ^ string_of_int k ^ " of " ^ string_of_int !ins_calls ^ " bad=" ^ string_of_int (Stdlib.List.length l) ^ " obj: " ^ raw)));
+         ins_calls := 0; ins_bad := [];
          (match wf_check p.pd with
           | [] -> print_endline "wf ok"
           | vs -> print_endline ("wf VIOLATION " ^ Stdlib.String.concat " " (Stdlib.List.map (fun (c, i) -> ocaml_of_coq_string c ^ "@" ^ string_of_int (int_of_n i)) vs)));
@@ -45,4 +67,4 @@ let () =
                         | None -> print_endline "totals DIFF tree")
           | None -> ()); p5 := None
        | _ -> ())
-    (fun l -> if l = "new rc=0" then (p1 := None; p5 := None; p3 := None); print_endline l)
+    (fun l -> if l = "new rc=0" then (p1 := None; p5 := None; p3 := None; p10 := None; ins_calls := 0; ins_bad := []); print_endline l)
